@@ -648,8 +648,16 @@ fn extract(tcx: TyCtxt<'_>) {
                         items.push(J::A(vec![s(it.name().to_string()), s(dps(tcx, it.def_id))]));
                     }
                 }
+                let mut atys = Vec::new();
+                for it in tcx.associated_items(def_id).in_definition_order() {
+                    if it.is_type() {
+                        let aty = tcx.type_of(it.def_id).instantiate_identity().skip_normalization();
+                        atys.push(J::A(vec![s(it.name().to_string()), s(tys(aty))]));
+                    }
+                }
                 let j = J::O(vec![
                     ("rec", s("impl")),
+                    ("types", J::A(atys)),
                     ("self", s(with_no_trimmed_paths!(with_no_visible_paths!(with_crate_prefix!(format!("{:?}", st)))))),
                     ("trait", tr.map(J::S).unwrap_or(J::Null)),
                     ("items", J::A(items)),
